@@ -1188,3 +1188,168 @@ fn g_lru_1_every_request_is_reported() {
     std::mem::forget(ing);
     std::mem::forget(w);
 }
+
+// ---- eviction at the start of a revision: `reset_for_new_revision` of the function ingredient ----------
+/// An eviction policy that asks for exactly one (harness-chosen) key to be evicted, once.
+pub(crate) struct OneEvict;
+pub(crate) static mut EVICT_KEY: Option<Id> = None;
+impl EvictionPolicy for OneEvict {
+    fn new(_: usize) -> Self {
+        OneEvict
+    }
+    fn record_use(&self, _: Id) {}
+    fn set_capacity(&mut self, _: usize) {}
+    fn for_each_evicted(&mut self, mut cb: impl FnMut(Id)) {
+        // SAFETY: single-threaded harness
+        if let Some(k) = unsafe { EVICT_KEY } {
+            cb(k)
+        }
+    }
+}
+pub(crate) struct CEv;
+// SAFETY: `u32` output.
+unsafe impl Configuration for CEv {
+    const DEBUG_NAME: &'static str = "cev";
+    const LOCATION: crate::ingredient::Location = crate::ingredient::Location { file: "", line: 0 };
+    const PERSIST: bool = false;
+    type DbView = HDb;
+    type SalsaStruct<'db> = crate::input::verif::KIStruct;
+    type Input<'db> = crate::input::verif::KIStruct;
+    type Output<'db> = u32;
+    type Eviction = OneEvict;
+    const CYCLE_STRATEGY: CycleRecoveryStrategy = CycleRecoveryStrategy::Panic;
+    fn values_equal<'db>(a: &u32, b: &u32) -> bool {
+        a == b
+    }
+    fn id_to_input(_: &Zalsa, key: Id) -> crate::input::verif::KIStruct {
+        crate::plumbing::FromId::from_id(key)
+    }
+    fn execute<'db>(_: &'db HDb, _: crate::input::verif::KIStruct) -> u32 {
+        unreachable!()
+    }
+    fn cycle_initial<'db>(_: &'db HDb, _: Id, _: crate::input::verif::KIStruct) -> u32 {
+        unreachable!()
+    }
+    fn recover_from_cycle<'db>(_: &'db HDb, _: &Cycle, _: &u32, v: u32, _: crate::input::verif::KIStruct) -> u32 {
+        v
+    }
+    fn serialize<S>(_: &u32, _: S) -> Result<S::Ok, S::Error>
+    where
+        S: plumbing::serde::Serializer,
+    {
+        unimplemented!()
+    }
+    fn deserialize<'de, D>(_: D) -> Result<u32, D::Error>
+    where
+        D: plumbing::serde::Deserializer<'de>,
+    {
+        unimplemented!()
+    }
+}
+impl crate::salsa_struct::SalsaStructInDb for crate::input::verif::KIStruct {
+    type MemoIngredientMap = crate::memo_ingredient_indices::MemoIngredientSingletonIndex;
+    const LEAF_TYPE_IDS: &'static [typeid::ConstTypeId] = &[typeid::ConstTypeId::of::<crate::input::verif::KIStruct>()];
+    fn lookup_ingredient_index(_: &Zalsa) -> crate::memo_ingredient_indices::IngredientIndices {
+        IngredientIndex::new(0).into()
+    }
+    fn entries(_: &Zalsa) -> impl Iterator<Item = DatabaseKeyIndex> + '_ {
+        std::iter::empty()
+    }
+    fn cast(id: Id, _: std::any::TypeId) -> Option<Self> {
+        Some(crate::plumbing::FromId::from_id(id))
+    }
+    // shape copied from `setup_input_struct!`
+    unsafe fn memo_table(zalsa: &Zalsa, id: Id, current_revision: Revision) -> crate::table::memo::MemoTableWithTypes<'_> {
+        // SAFETY: guaranteed by caller
+        unsafe { zalsa.table().memos::<crate::input::Value<crate::input::verif::KI>>(id, current_revision) }
+    }
+}
+
+//@ob id=G-EVICT-2 kind=C props=C05 timeout=1800 fn=IngredientImpl::reset_for_new_revision,IngredientImpl::evict_value_from_memo_for,Table::memos_mut,Table::ingredient_index
+//@ pre: a function over an input struct stored on a real `Table` page, with a memo (value present, fully tracked or untracked) in the input's real per-slot memo table; the eviction policy (V-LRU-1 for the real `Lru`) names that key for eviction, or nothing
+//@ post: at the start of a revision the named key's value is dropped iff its memo is fully tracked; its header is untouched and the memo stays in its slot; with nothing to evict nothing changes
+#[cfg(kani)]
+#[kani::proof]
+#[kani::unwind(5)]
+#[kani::stub(crate::sync::max_parallelism, crate::verif_support::one_core)]
+fn g_evict_2_eviction_at_new_revision() {
+    use crate::input::verif::KI;
+    let mut z = crate::zalsa::verif::bare_zalsa();
+    let mut input = crate::input::IngredientImpl::<KI>::new(IngredientIndex::new(0));
+    let mi = MemoIngredientIndex::from_usize(0);
+    crate::input::verif::register_memo_type::<Memo<CEv>>(&mut input, mi);
+    let id = crate::input::verif::alloc_input_v(z.runtime(), &input, (1, 2), [Revision::start(), Revision::start()], [Durability::LOW, Durability::LOW]);
+    let untracked: bool = vk::any();
+    let origin = if untracked {
+        crate::zalsa_local::OriginAndExtra::derived_untracked(std::iter::empty(), Default::default())
+    } else {
+        crate::zalsa_local::verif::empty_derived()
+    };
+    let (va, ca, d) = (vk::any_revision(), vk::any_revision(), vk::any_durability());
+    let m: &'static mut Memo<CEv> = Box::leak(Box::new(Memo::<CEv>::new(Some(11), va, crate::zalsa_local::verif::revs(d, ca, true, origin))));
+    let ptr = std::ptr::NonNull::from(&mut *m);
+    // SAFETY: current revision supplied
+    let old = unsafe { z.table().memos::<crate::input::Value<KI>>(id, z.current_revision()) }.insert(mi, ptr);
+    assert!(old.is_none());
+    let mut ing = IngredientImpl::<CEv>::new(IngredientIndex::new(3), crate::memo_ingredient_indices::verif::singleton(0), 1);
+    let evict: bool = vk::any();
+    // SAFETY: single-threaded harness
+    unsafe { EVICT_KEY = if evict { Some(id) } else { None } };
+    crate::ingredient::Ingredient::reset_for_new_revision(&mut ing, z.table_mut());
+    // SAFETY: current revision supplied
+    let got = unsafe { z.table().memos::<crate::input::Value<KI>>(id, z.current_revision()) }.get::<Memo<CEv>>(mi).unwrap();
+    assert!(got == ptr);
+    // SAFETY: leaked memo
+    let m = unsafe { got.as_ref() };
+    assert!(m.value.is_none() == (evict && !untracked));
+    assert!(m.header.verified_at.load() == va && m.header.revisions.changed_at == ca && m.header.revisions.durability == d);
+    vcover!(evict && !untracked, "value evicted");
+    vcover!();
+    std::mem::forget(ing);
+    std::mem::forget(input);
+    std::mem::forget(z);
+}
+
+//@off(cbmc-crashes-after-35-min) id=G-EVICT-3 kind=C props=C05 timeout=2400 fn=Zalsa::new_revision,Zalsa::evict_lru,Zalsa::insert_jar,IngredientImpl::reset_for_new_revision,IngredientImpl::requires_reset_for_new_revision
+//@ pre: as G-EVICT-2, with the input ingredient and the function ingredient registered in a `Zalsa` the way `insert_jar` registers them (reset list built from `requires_reset_for_new_revision`); then a new revision starts, or `trigger_lru_eviction` (= `Zalsa::evict_lru`) is called
+//@ post: the named key's value is gone (fully tracked memo), header untouched - eviction really runs at a new revision and on an explicit trigger; a new revision advances the revision by one, a trigger leaves it alone
+#[cfg(kani)]
+#[kani::proof]
+#[kani::unwind(5)]
+#[kani::stub(crate::sync::max_parallelism, crate::verif_support::one_core)]
+#[kani::stub(crate::function::IngredientImpl::execute, stub_execute)]
+fn g_evict_3_new_revision_and_trigger_evict() {
+    use crate::input::verif::KI;
+    let mut z = crate::zalsa::verif::bare_zalsa();
+    let mut input = crate::input::IngredientImpl::<KI>::new(IngredientIndex::new(0));
+    let mi = MemoIngredientIndex::from_usize(0);
+    crate::input::verif::register_memo_type::<Memo<CEv>>(&mut input, mi);
+    let id = crate::input::verif::alloc_input_v(z.runtime(), &input, (1, 2), [Revision::start(), Revision::start()], [Durability::LOW, Durability::LOW]);
+    let (va, ca, d) = (vk::any_revision(), vk::any_revision(), vk::any_durability());
+    let m: &'static mut Memo<CEv> = Box::leak(Box::new(Memo::<CEv>::new(Some(11), va, crate::zalsa_local::verif::revs(d, ca, true, crate::zalsa_local::verif::empty_derived()))));
+    let ptr = std::ptr::NonNull::from(&mut *m);
+    // SAFETY: current revision supplied
+    let _ = unsafe { z.table().memos::<crate::input::Value<KI>>(id, z.current_revision()) }.insert(mi, ptr);
+    z.verif_push(Box::new(input));
+    z.verif_push(Box::new(IngredientImpl::<CEv>::new(IngredientIndex::new(1), crate::memo_ingredient_indices::verif::singleton(0), 1)));
+    // SAFETY: single-threaded harness
+    unsafe { EVICT_KEY = Some(id) };
+    let r0 = z.current_revision();
+    let trigger_only: bool = vk::any();
+    if trigger_only {
+        z.evict_lru();
+        assert!(z.current_revision() == r0);
+    } else {
+        let r = z.new_revision();
+        assert!(r == r0.next() && z.current_revision() == r);
+    }
+    // SAFETY: current revision supplied
+    let got = unsafe { z.table().memos::<crate::input::Value<KI>>(id, z.current_revision()) }.get::<Memo<CEv>>(mi).unwrap();
+    // SAFETY: leaked memo
+    let m = unsafe { got.as_ref() };
+    assert!(m.value.is_none());
+    assert!(m.header.verified_at.load() == va && m.header.revisions.changed_at == ca);
+    vcover!(trigger_only, "explicit trigger");
+    vcover!();
+    std::mem::forget(z);
+}
